@@ -249,6 +249,9 @@ def instances(tier):
         out.append(Inst(ids, dict(k=2, npeers=2, chosen=True), budget=80))
         # three requests: the same application-chosen ID live toward two peers, then the stack numbers a third
         out.append(Inst(ids, dict(k=3, npeers=2, chosen=True), budget=150))
+        out.append(Inst(ids, dict(k=4, npeers=2, chosen=False), budget=150))
+        out.append(Inst(ids, dict(k=4, npeers=3, chosen=False), budget=150))
+        out.append(Inst(ids, dict(k=3, npeers=1, chosen=True), budget=150))
         for kind in REPLY_KINDS:
             out.append(Inst(demux, dict(kind=kind), budget=60))
         out.append(Inst(dup_request, {}, budget=60))
